@@ -944,6 +944,14 @@ package analysis
 //@   loop 1: invariant opts != nil && opts.Spec == old(opts.Spec) && opts.Spec.spec == old(opts.Spec.spec) && refsToReplace != nil
 //@   loop 2: invariant opts != nil && opts.Spec == old(opts.Spec) && opts.Spec.spec == old(opts.Spec.spec) && refsToReplace != nil
 
+// a new definition one of whose referers lies inside the definition itself (F20)
+//@ fun selfParent(r *newRef) bool = exists i in 0..len(r.parents) :: r.parents[i] == r.path || strings.HasPrefix(r.parents[i], r.path + "/")
+//@ func refersToItself(r)
+//@   requires r != nil
+//@   modifies nothing
+//@   ensures result == selfParent(r)
+//@   loop 1: invariant forall j in 0..idx :: !(r.parents[j] == r.path || strings.HasPrefix(r.parents[j], r.path + "/"))
+
 //@ func stripOAIGen(opts)
 //@   requires opts != nil && opts.Spec != nil && opts.Spec.spec != nil && opts.flattenContext != nil
 //@   modifies heaps DOC, heaps INDEX, heaps FCTX
@@ -2488,6 +2496,7 @@ package analysis
 
 //@ func stripOAIGen(opts)
 //@   aspect safe
+//@   callsite stripOAIGenForRef: !selfParent(callee_r)
 //@   requires optsWF(opts) && idxKeysWF(opts.Spec)
 //@   modifies heaps DOCW, opts.Spec.spec.Definitions, heaps INDEX, heaps FREFS, opts.flattenContext.warnings, ghost failed
 //@   ensures optsWF(opts) && idxKeysWF(opts.Spec) && optsSame(opts, old(opts.Spec), old(opts.Spec.spec), old(opts.flattenContext))
